@@ -159,7 +159,7 @@ func c01Generate(c *mon.Ctx) {
 	// 4b. steered representations: λ chosen so that a first-level intermediate of the first ladder steps (Z^2, Y^2, YZ, XY
 	// of the input point) has a structured stored value; scalars with bit 255 set so that the point enters the formulas at once
 	targets := gen.StoredTargets(oracle.P)
-	strideT := c.N(4, 1)
+	strideT := c.N(1, 1)
 	hi := []string{fmt.Sprintf("%x", new(big.Int).Add(new(big.Int).Lsh(big.NewInt(1), 255), big.NewInt(3))), fmt.Sprintf("%x", new(big.Int).Sub(n, big.NewInt(1))), "2", "3"}
 
 	for ti := int(c.Seed % uint64(strideT)); ti < len(targets); ti += strideT {
